@@ -148,3 +148,39 @@ func VerifC19Index() {
 	}
 	rt.Reach("index")
 }
+
+// VerifC19Send: Send and SendById never run the dial or a write in the caller and never wait for room: with every
+// dial worker stuck (none is ever scheduled here) and the dial queue filling up, each call returns; beyond the
+// configured queue size the task is refused, not waited for.  Queue sizes 1..3 (symbolic).
+func VerifC19Send() {
+	size := rt.IntRange(1, 3)
+	qs := rt.Concretize(size)
+	p := New().(*streamPool)
+	p.dial = NewExecPool(1, qs) // workers are not started: every dial is stuck forever
+	dialled := 0
+	getter := func(ctx context.Context) ([]peer.Peer, error) {
+		dialled++
+		return nil, nil
+	}
+	for i := 0; i < qs+2; i++ {
+		err := p.Send(context.Background(), &vC19Msg{1}, getter)
+		rt.Assert(dialled == 0, "send-does-not-dial-in-the-caller")
+		if i < qs {
+			rt.Assert(err == nil, "send-accepted-while-the-dial-queue-has-room")
+		} else {
+			rt.Assert(err != nil, "send-refused-when-the-dial-queue-is-full")
+		}
+	}
+	// a stream whose writer is stuck: its queue takes the configured number of messages, the rest is dropped, no call waits
+	ds := &vC19Stream{ctx: peer.CtxWithPeerId(context.Background(), "p0")}
+	st, err := p.addStream(ds, qs, "t0")
+	rt.Assert(err == nil, "add-stream")
+	for i := 0; i < qs+2; i++ {
+		_ = p.SendById(context.Background(), &vC19Msg{1}, "p0")
+		_ = p.Broadcast(context.Background(), &vC19Msg{1}, "t0")
+		rt.Assert(st.queue.Len() <= qs, "stream-buffers-at-most-its-queue-size")
+		rt.Assert(ds.sent == 0, "writes-do-not-happen-in-the-caller")
+	}
+	rt.Assert(st.queue.Len() == qs, "stream-queue-fills-up-to-its-size")
+	rt.Reach("send")
+}
